@@ -163,6 +163,14 @@ bool async_queue_enqueue(async_queue_t* queue, const void* data, size_t size) {
         platform_event_set(&queue->not_empty);
     }
     
+    /* not_full is an auto-reset event: it releases one waiting writer, and two signals that
+     * are given before a writer has woken up count as one. So a writer that finds more room
+     * behind its own message passes the signal on to the next one (a writer that is woken up
+     * for nothing checks the count and waits again). */
+    if ((queue->flags & ASYNC_QUEUE_BLOCK_WRITER) && queue->count < queue->capacity) {
+        platform_event_set(&queue->not_full);
+    }
+
     platform_mutex_unlock(&queue->mutex);
     
     return true;
@@ -237,6 +245,13 @@ void async_queue_clear(async_queue_t* queue) {
     queue->head = 0;
     queue->tail = 0;
     queue->count = 0;
+
+    /* There is room now: a writer that waits for it has to hear about it, as after a
+     * dequeue (nothing can be dequeued from an empty queue to do it later) */
+    if (queue->flags & ASYNC_QUEUE_BLOCK_WRITER) {
+        platform_event_set(&queue->not_full);
+    }
+
     platform_mutex_unlock(&queue->mutex);
 }
 
